@@ -46,6 +46,28 @@ _PURE_EXTERNALS = {'os.path.join': _pp.join, 'os.path.normpath': _pp.normpath, '
                    'os.fspath': str, 'os.path.split': _pp.split}
 
 
+def _chain(*its):
+    out = []
+    for it in its:
+        out.extend(it)
+    return out
+
+
+def _islice(it, *a):
+    import itertools
+    return list(itertools.islice(it, *a))
+
+
+def _pairwise(it):
+    it = list(it)
+    return list(zip(it, it[1:]))
+
+
+# pure stdlib helpers that only rearrange their (concrete) arguments; results are lists (consumers iterate them once)
+_PURE_ITER = {'itertools.chain': _chain, 'chain': _chain, 'itertools.islice': _islice, 'islice': _islice, 'itertools.pairwise': _pairwise, 'pairwise': _pairwise,
+              'itertools.chain.from_iterable': lambda its: _chain(*its), 'chain.from_iterable': lambda its: _chain(*its)}
+
+
 def _concrete(v, depth=0):
     """a plain Python value without abstract parts (node objects, opaque values, class / external markers may be *elements*
     of containers - the builtins above only rearrange them - but not the container itself)"""
@@ -126,6 +148,16 @@ def _lazy_ok(fn):
                     return False
                 q = getattr(q, '_parent', None)
     return True
+
+
+class EnumMember:
+    """member of a private Enum class of the package: compared by identity, like the real one"""
+
+    def __init__(self, cls, name, value):
+        self.cls, self.name, self.value = cls, name, value
+
+    def __repr__(self):
+        return '%s.%s' % (self.cls, self.name)
 
 
 class ExcValue(tuple):
@@ -299,6 +331,10 @@ class FDE:
             return lambda *a, **k: self._invoke(v[1], list(a), dict(k), base_env=v[2])
         if isinstance(v, Bound):
             return lambda *a, **k: self._invoke(v.fi, [v.recv] + list(a), dict(k))
+        if callable(v) and getattr(v, '_fde_ok', False):
+            return v
+        if isinstance(v, tuple) and v and v[0] in ('unbound', 'ntclass'):
+            return lambda *a, **k: self._apply(v, list(a), dict(k), ast.Name(id='<callback>', ctx=ast.Load()))
         raise Unsupported('callable %r' % (v,))
 
     def _run(self, stmts, env, fi):
@@ -565,6 +601,8 @@ class FDE:
         return bool(v)
 
     def _attr(self, base, attr, fi=None):
+        if isinstance(base, EnumMember) and attr in ('name', 'value'):
+            return getattr(base, attr)
         if isinstance(base, tuple) and hasattr(type(base), '_fields'):
             if attr in type(base)._fields:
                 return getattr(base, attr)      # field of a record (namedtuple) built by the evaluated code
@@ -673,6 +711,10 @@ class FDE:
                 return self.extcalls[unparse(e)]       # an external function used as a value (alias, table entry)
             if unparse(e) in self.externals:
                 return ('ext', self.externals[unparse(e)])
+            if unparse(e).startswith('collections.abc.') and not (isinstance(e.value, ast.Attribute) and isinstance(e.value.value, ast.Name) and e.value.value.id in env):
+                import collections.abc as _cabc
+                if hasattr(_cabc, e.attr):
+                    return ('ext', getattr(_cabc, e.attr))       # (also what desugared match statements test sequences / mappings against)
             if isinstance(e.value, ast.Name) and (e.value.id, e.attr) in self.class_objs:
                 return self.class_objs[(e.value.id, e.attr)]
             ok, v = fold_const(self.repo, e)
@@ -681,6 +723,11 @@ class FDE:
             base = self._ev(e.value, env, fi)
             if isinstance(base, tuple) and base and base[0] == 'class':
                 if (base[1], e.attr) in self.class_objs:
+                    return self.class_objs[(base[1], e.attr)]
+                ci_ = self.repo.classes.get(base[1])
+                if ci_ is not None and e.attr in ci_.attrs and any(b.split('.')[-1] in ('Enum', 'IntEnum', 'StrEnum', 'Flag', 'IntFlag') for b in ci_.base_exprs):
+                    ok_, v_ = fold_const(self.repo, ci_.attrs[e.attr], base[1])
+                    self.class_objs[(base[1], e.attr)] = EnumMember(base[1], e.attr, v_ if ok_ else Opaque('value of %s.%s' % (base[1], e.attr)))
                     return self.class_objs[(base[1], e.attr)]
                 if e.attr == 'ayns':
                     return ('classayns', base[1])
@@ -847,6 +894,25 @@ class FDE:
         if isinstance(e, ast.Lambda):
             from .srcmodel import FuncInfo
             return ('closure', FuncInfo(e, fi.module, fi.cls, fi.ayns, outer=fi), env)
+        if isinstance(e, ast.NamedExpr) and isinstance(e.target, ast.Name):
+            v = self._ev(e.value, env, fi)
+            env[e.target.id] = v
+            return v
+        if isinstance(e, ast.BinOp) and isinstance(e.op, ast.BitOr):
+            a, b = self._ev(e.left, env, fi), self._ev(e.right, env, fi)
+            if (isinstance(a, dict) and isinstance(b, dict)) or (isinstance(a, (set, frozenset)) and isinstance(b, (set, frozenset))) or (isinstance(a, int) and isinstance(b, int)):
+                return a | b
+            raise Unsupported('operator | on abstract values: %s' % unparse(e))
+        if isinstance(e, ast.BinOp) and isinstance(e.op, (ast.FloorDiv, ast.Mod, ast.BitAnd, ast.LShift, ast.RShift)):
+            a, b = self._ev(e.left, env, fi), self._ev(e.right, env, fi)
+            if isinstance(e.op, ast.Mod) and isinstance(a, str) and _concrete(b):
+                return a % b
+            if isinstance(a, int) and isinstance(b, int):
+                try:
+                    return {ast.FloorDiv: lambda: a // b, ast.Mod: lambda: a % b, ast.BitAnd: lambda: a & b, ast.LShift: lambda: a << b, ast.RShift: lambda: a >> b}[type(e.op)]()
+                except ZeroDivisionError:
+                    raise Raised('ZeroDivisionError')
+            raise Unsupported('arithmetic on abstract values: %s' % unparse(e))
         if isinstance(e, ast.BinOp) and isinstance(e.op, (ast.Sub, ast.Mult)):
             a, b = self._ev(e.left, env, fi), self._ev(e.right, env, fi)
             if isinstance(e.op, ast.Sub) and isinstance(a, (int, float)) and isinstance(b, (int, float)):
@@ -895,6 +961,86 @@ class FDE:
             return self._call2(e, env, fi, eager)
         finally:
             self._gen_once = False
+
+    def _plain_class(self, n):
+        """a private helper class of the package (a record, a small state holder): not a node, not an exception, nothing external"""
+        ci = self.repo.classes[n]
+        if ci.metaclass is not None or not ci.simple_name.startswith('_') or ci.outer is not None:
+            return False
+        if self._is_exc_class(n) or self.repo.is_subclass(n, 'ConfigNode'):
+            return False
+        for b in self.repo.mro(n)[1:]:
+            if b not in self.repo.classes and b not in ('object', 'NamedTuple', 'typing.NamedTuple'):
+                return False
+        return True
+
+    def _record_fields(self, n):
+        """[(field, default expr or None)] of a dataclass / typing.NamedTuple class body, or None"""
+        ci = self.repo.classes[n]
+        decos = [unparse(d).split('(')[0] for d in ci.node.decorator_list]
+        is_dc = any(d in ('dataclass', 'dataclasses.dataclass') for d in decos)
+        is_nt = any(b in ('NamedTuple', 'typing.NamedTuple') for b in ci.base_exprs)
+        if not (is_dc or is_nt):
+            return None, None
+        out = []
+        for st in ci.node.body:
+            if isinstance(st, ast.AnnAssign) and isinstance(st.target, ast.Name) and 'ClassVar' not in unparse(st.annotation):
+                out.append((st.target.id, st.value))
+        return ('dataclass' if is_dc else 'namedtuple'), out
+
+    def _construct_plain(self, n, args, kwargs, env, fi):
+        kind, fields = self._record_fields(n)
+        ci = self.repo.classes[n]
+        mfi = None
+        for g in ci.methods.values():
+            mfi = g
+            break
+        if kind is not None:
+            vals = {}
+            if len(args) > len(fields):
+                raise Raised('TypeError')
+            for (name, _), a in zip(fields, args):
+                vals[name] = a
+            for k, v in kwargs.items():
+                if k in vals or k not in [f for f, _ in fields]:
+                    raise Raised('TypeError')
+                vals[k] = v
+            for name, d in fields:
+                if name in vals:
+                    continue
+                if d is None:
+                    raise Raised('TypeError')
+                if isinstance(d, ast.Call) and unparse(d.func) in ('field', 'dataclasses.field'):
+                    kw = {k.arg: k.value for k in d.keywords}
+                    if 'default_factory' in kw:
+                        vals[name] = self._apply(self._ev(kw['default_factory'], {}, fi), [], {}, d) if not (isinstance(kw['default_factory'], ast.Name) and kw['default_factory'].id in ('list', 'dict', 'set')) \
+                            else {'list': list, 'dict': dict, 'set': set}[kw['default_factory'].id]()
+                    elif 'default' in kw:
+                        vals[name] = self._ev(kw['default'], {}, fi)
+                    else:
+                        raise Raised('TypeError')
+                else:
+                    vals[name] = self._ev(d, {}, fi)
+            if kind == 'namedtuple' and not ci.methods:
+                import collections as _c
+                key = ('ntclass', n)
+                if key not in self.class_objs:
+                    self.class_objs[key] = _c.namedtuple(n.lstrip('_') or 'Record', [f for f, _ in fields], rename=True)
+                return self.class_objs[key](*[vals[f] for f, _ in fields])
+            self._n_plain = getattr(self, '_n_plain', 0) + 1
+            o = Obj('%s#%d' % (n, self._n_plain), n, **vals)
+            post = self.repo.resolve(n, '__post_init__')
+            if post is not None:
+                self._invoke(post, [o], {})
+            return o
+        self._n_plain = getattr(self, '_n_plain', 0) + 1
+        o = Obj('%s#%d' % (n, self._n_plain), n)
+        init = self.repo.resolve(n, '__init__')
+        if init is not None:
+            self._invoke(init, [o] + list(args), dict(kwargs))
+        elif args or kwargs:
+            raise Raised('TypeError')
+        return o
 
     def _is_exc_class(self, n):
         return any(b.endswith('Error') or b in ('Exception',) for b in self.repo.mro(n)[1:] + [n]) and not self.repo.is_subclass(n, 'ConfigNode')
@@ -969,6 +1115,19 @@ class FDE:
             for x in it_:
                 acc = self._apply(args[0], [acc, x], {}, e)
             return acc
+        if unparse(f) in _PURE_ITER and not kwargs and not (isinstance(f, ast.Name) and f.id in env) \
+                and all(isinstance(a, (list, tuple, dict, set, int)) or type(a).__name__ in _ITER_TYPES for a in args):
+            return _PURE_ITER[unparse(f)](*args)
+        if unparse(f) in ('operator.itemgetter', 'itemgetter') and len(args) == 1 and not kwargs and isinstance(args[0], (int, str)):
+            k_ = args[0]
+            g_ = lambda o: (o[k_] if isinstance(o, (list, tuple, dict, str)) else self._apply_getitem(o, k_, e))  # noqa: E731
+            g_._fde_ok = True
+            return g_
+        if unparse(f) in ('operator.attrgetter', 'attrgetter') and len(args) == 1 and not kwargs and isinstance(args[0], str) and '.' not in args[0]:
+            a_ = args[0]
+            g_ = lambda o: self._attr(o, a_, fi)  # noqa: E731
+            g_._fde_ok = True
+            return g_
         if unparse(f) in ('itertools.takewhile', 'takewhile', 'itertools.dropwhile', 'dropwhile', 'filter', 'map') and len(args) == 2 and isinstance(args[1], (list, tuple)) \
                 and not (isinstance(f, ast.Name) and f.id in env):
             import itertools
@@ -1092,6 +1251,10 @@ class FDE:
                 return self._apply(env[n], args, kwargs, e)
             if n in env and isinstance(env[n], Bound):
                 return self._apply(env[n], args, kwargs, e)
+            if n in env and isinstance(env[n], Obj) and env[n].cls in self.repo.classes and self.repo.resolve(env[n].cls, '__call__') is not None:
+                return self._invoke(self.repo.resolve(env[n].cls, '__call__'), [env[n]] + args, kwargs)
+            if n in self.repo.classes and n not in env and n not in self.stubs and self._plain_class(n):
+                return self._construct_plain(n, args, kwargs, env, fi)
             if n in self.repo.classes and n not in env:
                 # construction of a node class: recorded; wrapping an existing node object goes through the metaclass
                 self.effects.append(('instantiate', n, tuple(args), tuple(sorted(kwargs.items(), key=lambda kv: kv[0]))))
@@ -1184,6 +1347,13 @@ class FDE:
         if isinstance(f, (ast.Subscript, ast.Call, ast.IfExp)):
             return self._apply(self._ev(f, env, fi), args, kwargs, e)      # table[key](...), factory(...)(...)
         raise Unsupported('call of %s' % unparse(f))
+
+    def _apply_getitem(self, o, k, e):
+        if isinstance(o, Obj):
+            t = self.repo.resolve(o.cls, '__getitem__') if o.cls in self.repo.classes else None
+            if t is not None or '__getitem__' in self.stubs:
+                return self._apply(Bound(o, t, '__getitem__', False), [k], {}, e)
+        raise Unsupported('subscript of %r' % (o,))
 
     def _apply(self, target, args, kwargs, e):
         """call of a function *value* (taken from a dispatch table, a local, a record class)"""
